@@ -138,7 +138,7 @@ type funcInfo struct {
 	headers  map[int]bool
 	hasLoop  bool
 	tracked  map[*ssa.Alloc]bool
-	escPaths map[*ssa.Alloc][][]int // field paths of a tracked alloc whose address escapes (callee may write them)
+	escPaths map[*ssa.Alloc][][]int     // field paths of a tracked alloc whose address escapes (callee may write them)
 	pos      map[ssa.Instruction][2]int // block index, instr index
 	ninstr   int
 }
@@ -181,6 +181,29 @@ func infoOf(fn *ssa.Function) *funcInfo {
 	return fi
 }
 
+// readOnlyHook: set once the effect summaries exist: f stores nothing non-local, directly or
+// through its callees, so handing it an address does not change what the address points to.
+var readOnlyHook func(f *ssa.Function) bool
+
+// handedToReadOnly: instruction r passes v to a statically known read-only repo function only.
+func handedToReadOnly(r ssa.Instruction, v ssa.Value) bool {
+	ci, ok := r.(ssa.CallInstruction)
+	if !ok || readOnlyHook == nil {
+		return false
+	}
+	if _, isGo := r.(*ssa.Go); isGo {
+		return false
+	}
+	if _, isDefer := r.(*ssa.Defer); isDefer {
+		return false
+	}
+	f := ci.Common().StaticCallee()
+	if f == nil || ci.Common().Value == v {
+		return false
+	}
+	return readOnlyHook(f)
+}
+
 // addrConfined: the address v (rooted at alloc) is only used for field addressing, loads and
 // stores *to* it — it never escapes as a value.
 func addrConfined(v ssa.Value, root *ssa.Alloc) bool {
@@ -215,6 +238,9 @@ func addrConfined(v ssa.Value, root *ssa.Alloc) bool {
 				}
 			}
 		default:
+			if handedToReadOnly(r, v) {
+				continue
+			}
 			return false
 		}
 	}
@@ -258,6 +284,9 @@ func escapePaths(v ssa.Value, root *ssa.Alloc, path []int) ([][]int, bool) {
 			}
 		case *ssa.DebugRef:
 		default:
+			if handedToReadOnly(r, v) {
+				continue
+			}
 			if !escapeHere() {
 				return nil, false
 			}
